@@ -129,7 +129,9 @@ def r4(ctx: Ctx) -> None:
     f = ctx.func(ALLOC, "Allocation.initial_allocation")
     c = canon_function(f, ctx.model)
     g = ctx.cfg(f)
-    det_loops = [st for st in c if st[0] == "for" and contains(st[2], "_detect_fixed_rectangles")]
+    from framelint.canon import single_defs, deref
+    defs_ = single_defs(c)
+    det_loops = [st for st in c if st[0] == "for" and contains(deref(st[2], defs_), "_detect_fixed_rectangles")]
     ctx.site(f.where, "fixed cells pre-allocated with ratio 1 at depth 0")
     ok = False
     if len(det_loops) == 1 and det_loops[0][1][0] == "tuple" and len(det_loops[0][1][1]) == 2:
@@ -236,6 +238,8 @@ def r5(ctx: Ctx) -> None:
 def r6(ctx: Ctx) -> None:
     f = ctx.func(MODULE, "Module.create_square")
     c = canon_function(f, ctx.model)
+    from framelint.canon import single_defs, deref
+    c = deref(c, single_defs(c))
     area = ("c", ("a", ("self",), "area"), (), ())
     side = ("c", ("a", ("g", "math"), "sqrt"), (area,), ())
     kc, ks = kw_value(ctx, "KW_CENTER"), kw_value(ctx, "KW_SHAPE")
